@@ -24,12 +24,13 @@ from .values import (
 
 
 class Spec:
-    def __init__(self, target, fn, props, assumed=False, note=""):
+    def __init__(self, target, fn, props, assumed=False, note="", inline=False):
         self.target = target
         self.fn = fn
         self.props = list(props)
         self.assumed = assumed  # assumed contracts are applied at call sites but never verified (listed in trusted base)
         self.note = note
+        self.inline = inline  # verified against its contract, but callers inline the body (more precise for leaf codecs)
 
 
 class Registry:
@@ -47,9 +48,9 @@ class Registry:
         self.disabled: set[str] = set()
 
     # ---------------------------------------------------------------- registration (decorators)
-    def contract(self, target, props=(), assumed=False, note=""):
+    def contract(self, target, props=(), assumed=False, note="", inline=False):
         def deco(fn):
-            self.contracts[target] = Spec(target, fn, props, assumed, note)
+            self.contracts[target] = Spec(target, fn, props, assumed, note, inline)
             return fn
 
         return deco
@@ -86,7 +87,10 @@ class Registry:
     def contract_for(self, dotted):
         if dotted in self.disabled:
             return None
-        return self.contracts.get(dotted)
+        s = self.contracts.get(dotted)
+        if s is not None and s.inline:
+            return None
+        return s
 
     def loop_annotation(self, fname, k):
         return self.loops.get((fname, k))
@@ -175,7 +179,7 @@ class KBytes(Kind):
 
     def fresh(self, c, name):
         t = z3.Const(name, R.Bytes)
-        c.I.ctx.assume(blen(t) >= 0)
+        c.I.ctx.assume(z3.And(blen(t) >= 0, blen(t) <= 2**63 - 1))  # A-PY: len(x) <= sys.maxsize on 64-bit CPython
         if self.length is not None:
             c.I.ctx.assume(blen(t) == Z(self.length))
         if self.max_len is not None:
